@@ -38,12 +38,21 @@ static void trial_stub(void *t)
     cmv_have_last = 1; cmv_last_idx = idx;
     for (unsigned k = 0; k < NT; k++) if (k == idx) cmv_ran[k]++;
     ((struct trial *)t)->payload[0] ^= 1u;          /* the trial may write its own element */
+}
+/* Interference at the granularity of the atomic operations (the only accesses to shared mutable
+ * state): before every atomic operation of "our" worker, other workers may complete up to 2 draws of
+ * their own (and run what they drew).  The operation itself is the real builtin. */
+static void cmv_others_draw(void)
+{
 #ifdef H_WORKER
-    /* other workers draw (and run) some indices while this trial runs */
     uint64_t k = nondet_u8(); ASSUME(k <= 2u);
     for (uint64_t j = 0; j < 2u; j++) if (j < k) { const uint64_t o = __atomic_fetch_add(&cmg_next_trial_idx, 1, __ATOMIC_SEQ_CST); for (unsigned q = 0; q < NT; q++) if (q == o && o < cmv_total) cmv_ran[q]++; }
 #endif
 }
+static uint64_t cmv_fetch_add(uint64_t *p, uint64_t v) { cmv_others_draw(); return __atomic_fetch_add(p, v, __ATOMIC_SEQ_CST); }
+static uint64_t cmv_load(uint64_t *p) { cmv_others_draw(); return __atomic_load_n(p, __ATOMIC_SEQ_CST); }
+#define __atomic_fetch_add(p, v, m) cmv_fetch_add((p), (v))
+#define __atomic_load_n(p, m) cmv_load(p)
 
 /* threads: created = run to completion at once (one legal schedule); joined at most once each */
 static unsigned cmv_ncreated, cmv_njoined; static _Bool cmv_join_ok = 1;
@@ -67,6 +76,8 @@ void __builtin_ia32_ldmxcsr(unsigned v) { cmv_mxcsr = v; }
 unsigned __builtin_ia32_stmxcsr(void) { return cmv_mxcsr; }
 #include <xmmintrin.h>
 #include "src/cimba.c"
+#undef __atomic_fetch_add
+#undef __atomic_load_n
 
 static void reset(void)
 {
